@@ -163,6 +163,17 @@ func main() {
 		}
 		units = append(units, u)
 	}
+	// saved cases of repaired defects are re-run by every run
+	if files, _ := filepath.Glob(filepath.Join(root, "regress", id, "*.json")); len(files) > 0 && unitRe == nil {
+		seen := map[string]bool{}
+		for _, u := range plan.Units {
+			if u.Lab != nil || u.Fuzz != "" || seen[u.Pkg] {
+				continue
+			}
+			seen[u.Pkg] = true
+			units = append(units, Unit{Name: "regress:" + u.Pkg, Pkg: u.Pkg, Run: "^TestRegress$", Shards: [2]int{1, 1}, Race: u.Race, Env: u.Env})
+		}
+	}
 	if len(units) == 0 {
 		fatal2x(exit, "no units to run for %s tier %s", id, *tier)
 	}
